@@ -305,6 +305,50 @@ Proof.
   intros v0 Hv0. cbn in Hv0. apply repeat_spec in Hv0. subst. constructor.
 Qed.
 
+(** * Stream exits: a close between read and seal *)
+
+Lemma sx_keep_inv : forall k ops st,
+  x_key st = k -> Forall (fun s => sealed_under k (snd s) = true) (x_view st) ->
+  let st' := fold_left (sx_step KeepKey) ops st in
+  x_key st' = k /\ Forall (fun s => sealed_under k (snd s) = true) (x_view st').
+Proof.
+  intros k. induction ops as [|o ops IH]; intros st Hk Hv; cbn [fold_left]; [split; assumption|].
+  apply IH.
+  - destruct o as [b| |b]; cbn [sx_step]; try assumption;
+      destruct (x_closed st); try assumption; cbn; assumption.
+  - assert (He : Forall (fun s => sealed_under k (snd s) = true) (x_view (sx_emit st [])) -> True) by trivial.
+    destruct o as [b| |b]; cbn [sx_step]; try assumption;
+      (destruct (x_closed st); [|]); try assumption;
+      (cbn [sx_emit x_view]; apply Forall_app; split; [assumption|];
+       constructor; [cbn; rewrite Hk; apply N.eqb_refl|constructor]).
+Qed.
+
+(** On every stream data path of the code as it is (the key a sender loop
+    uses is never changed or zeroed after the stream was set up): whatever
+    sequence of sends, closes and sends-after-close happens, every payload the
+    transit next to the exit sees is sealed under the tunnel's own key. *)
+Theorem stream_exit_sealed_under_any_close : forall k ops,
+  Forall (fun s => sealed_under k (snd s) = true /\ readable (snd s) = []) (x_view (sx_run KeepKey k ops)).
+Proof.
+  intros k ops. unfold sx_run.
+  destruct (sx_keep_inv k ops (sx_init k) eq_refl (Forall_nil _)) as [_ H].
+  eapply Forall_impl; [|exact H]. intros [d x] Hs. cbn [snd] in *. split; [assumption|].
+  destruct x; cbn in *; [reflexivity|reflexivity|discriminate].
+Qed.
+
+(** If the close zeroed the key the loop is about to use: the late bytes go
+    out under the all-zero key - not the tunnel's key, and everybody can open
+    them. *)
+Lemma stream_exit_wipe_refuted : exists (ops : list sxop) (secret : bytes) (c : N),
+  secret <> [] /\
+  In (DDown, Whole zero_key c secret) (x_view (sx_run WipeKey 7 ops)) /\
+  sealed_under 7 (Whole zero_key c secret) = false /\
+  open zero_key 0 (Whole zero_key c secret) = Some (c, secret).
+Proof.
+  exists [SDown [x01]; SClose; SLate [x53; x45; x43]], [x53; x45; x43], 1.
+  split; [discriminate|]. vm_compute. repeat split. right. left. reflexivity.
+Qed.
+
 (** * The key cannot be computed from what a transit receives *)
 
 Fixpoint good (t : term) : Prop :=
@@ -446,3 +490,70 @@ Proof.
   - destruct transits; [lia|]. cbn [repeat]. clear.
     induction transits; [reflexivity|]. cbn [repeat last] in *. exact IHtransits.
 Qed.
+
+Definition sxop_size (o : sxop) : opk * N :=
+  match o with
+  | SDown b => (O_down, blen b)
+  | SClose => (O_close, 0)
+  | SLate b => (O_late, blen b)
+  end.
+
+Definition sx_rel (pol : close_policy) (k : key) (st : sxstate) (z : bool * totals) : Prop :=
+  fst z = x_closed st /\ view_totals k (x_view st) = snd z /\
+  x_key st = (if x_closed st then match pol with KeepKey => k | WipeKey => zero_key end else k).
+
+Lemma sx_rel_step : forall pol k st z o, k <> zero_key ->
+  sx_rel pol k st z -> sx_rel pol k (sx_step pol st o) (sz_sx_step pol z (sxop_size o)).
+Proof.
+  intros pol k st [cl t] o Hk (Hc & Ht & Hkey). cbn [fst snd] in *. subst cl.
+  destruct t as [[[a1 b1] c1] d1].
+  destruct o as [b| |b]; cbn [sxop_size sx_step sz_sx_step].
+  - destruct (x_closed st) eqn:Ec.
+    + unfold sx_rel. cbn [fst snd]. rewrite Ec. repeat split; assumption.
+    + unfold sx_rel, sx_emit. cbn [fst snd x_closed x_view x_key]. rewrite Ec.
+      split; [reflexivity|]. split; [|assumption].
+      rewrite view_totals_snoc, Ht. unfold add_seen. cbn [fst snd sealed_under blob_app_bytes].
+      rewrite Hkey, N.eqb_refl. reflexivity.
+  - unfold sx_rel. cbn [fst snd x_closed x_view x_key]. split; [reflexivity|]. split; [assumption|].
+    destruct pol; [|reflexivity]. destruct (x_closed st); assumption.
+  - destruct (x_closed st) eqn:Ec.
+    + unfold sx_rel, sx_emit. cbn [fst snd x_closed x_view x_key]. rewrite Ec.
+      split; [reflexivity|]. split; [|assumption].
+      rewrite view_totals_snoc, Ht. unfold add_seen. cbn [fst snd sealed_under blob_app_bytes].
+      rewrite Hkey. destruct pol.
+      * rewrite N.eqb_refl. reflexivity.
+      * assert (zero_key =? k = false) as -> by (apply N.eqb_neq; congruence). reflexivity.
+    + unfold sx_rel. cbn [fst snd]. rewrite Ec. repeat split; assumption.
+Qed.
+
+(** The stream-race oracle of the correspondence check is this model. *)
+Theorem sx_oracle_is_the_model : forall pol k ops, k <> zero_key ->
+  view_totals k (x_view (sx_run pol k ops)) = sz_sx_run pol (map sxop_size ops).
+Proof.
+  intros pol k ops Hk. unfold sx_run, sz_sx_run.
+  assert (H : forall ops st z, sx_rel pol k st z ->
+            view_totals k (x_view (fold_left (sx_step pol) ops st)) =
+            snd (fold_left (sz_sx_step pol) (map sxop_size ops) z)).
+  { clear ops. induction ops as [|o ops IH]; intros st z Hr; cbn [fold_left map].
+    - destruct Hr as (_ & Ht & _). exact Ht.
+    - apply IH. now apply sx_rel_step. }
+  apply H. unfold sx_rel, sx_init. cbn. repeat split.
+Qed.
+
+(** * Functions allowed to zero / assign session key fields (compared with the regenerated facts) *)
+
+From Coq Require String.
+
+Module Allowed.
+  Import String.
+  Local Open Scope string_scope.
+  Definition allowed_key_zeroers : list string :=
+    ["udp.Association.Close"; "icmp.Session.Close"].
+  Definition allowed_key_writers : list string :=
+    ["agent.Agent.handleICMPOpenAck"; "agent.Agent.handleUDPOpenAck"; "health.ShellStreamAdapter.SetSessionKey";
+     "icmp.Session.Close"; "icmp.Session.SetSessionKey"; "stream.Stream.SetSessionKey";
+     "udp.Association.Close"; "udp.Association.SetSessionKey"].
+End Allowed.
+Definition allowed_key_zeroers := Allowed.allowed_key_zeroers.
+Definition allowed_key_writers := Allowed.allowed_key_writers.
+
